@@ -44,6 +44,8 @@ def run(ctx):
     ctx.check(params(rows) == {2}, "R08-dependency", f.key + ":d", t.span, "rows depend on delta only", "rows depend on parameters %s (expected delta only)" % sorted(params(rows)))
     # wiring into the constructor: arg0 is `w`, arg1 is `d`
     ctx.check(ctor.local_name(1) == "w" and ctor.local_name(2) == "d", "R08-dependency", ctor.key + ":params", ctor, "constructor parameters are (w, d, hasher)", "constructor parameter order changed")
+    from .common import double_hashing_rules
+    double_hashing_rules(ctx, "R08-double-hashing")
     env = float_facts_to_env(atomic_facts(f, prog, bi, tb))
     for name, term in (("w", cols), ("d", rows)):
         iv = ieval(term, env)
